@@ -205,6 +205,34 @@ def expectedOf (logs : List LogEv) (u : Upkeep) : Nat :=
 def expectedPerforms (ups : List Upkeep) (logs : List LogEv) : Nat :=
   (ups.map (expectedOf logs)).sum
 
+/-! ### the transmit loader (`OCR3TransmitLoader.Transmit` / `Load`)
+
+Each call of `Transmit` is ONE critical section (`tl.mu.Lock()` is its first statement): the key
+`hash(gob(report, round))` is looked up in `transmitted`; a known key is refused (`report already
+transmitted`), a new one is queued and recorded.  `Load` (also under the lock) empties the queue into the
+block and increments the perform counter by the number of results in the queued reports.  Concurrent callers
+are therefore a sequence of submissions in some order — the order is the schedule, an explicit argument. -/
+
+structure TLState where
+  transmitted : List String := []   -- keys of `tl.transmitted`
+  queue       : List String := []   -- keys of `tl.queue`, in order
+deriving DecidableEq, Repr
+
+/-- `Transmit`: `(state', accepted)` -/
+def TLState.transmit (s : TLState) (key : String) : TLState × Bool :=
+  if s.transmitted.contains key then (s, false)
+  else ({ transmitted := key :: s.transmitted, queue := s.queue ++ [key] }, true)
+
+/-- `Load`: `(state', keys put into the block)` -/
+def TLState.load (s : TLState) : TLState × List String := ({ s with queue := [] }, s.queue)
+
+/-- the keys accepted while the submissions `keys` are served in that order -/
+def acceptedFrom (s : TLState) : List String → List String
+  | [] => []
+  | k :: ks => if (s.transmit k).2 then k :: acceptedFrom (s.transmit k).1 ks else acceptedFrom (s.transmit k).1 ks
+
+def accepted (keys : List String) : List String := acceptedFrom {} keys
+
 /-! ## §3 plan encode / decode at the JSON-tree level -/
 
 /-- scalar JSON values as the Go types of the plan produce them -/
